@@ -282,7 +282,8 @@ def eval_c09(ctx, tr):
                 if o is not None:
                     n_o = sum(1 for c in o.event_children if c is x)
                     n_d = sum(1 for d in tr.DR if d.ev == lab and d.caller in tr.Eh and result_of(d.caller) is o)
-                    ctx.check('C09.child_once', n_o <= n_d, ev=lab, listed=n_o, dispatched=n_d, why='listed more often than dispatched by that handler')
+                    ctx.check('C09.child_once', 1 <= n_o <= n_d, ev=lab, listed=n_o, dispatched=n_d,
+                              why='a handler that dispatched the event itself lists it at least once and not more often than it dispatched it')
             first_dr = next((d for d in tr.DR if d.ev == lab), None)
             if first_dr is not None and first_dr.caller == fd.caller:
                 ctx.check('C09.child_once', n_here == 1 and n_else == 0, ev=lab, here=n_here, elsewhere=n_else)
@@ -597,11 +598,28 @@ def tag_paths3(ctx, tr):
                 ctx.tag('siblings_await_same_event')
 
 
+def tag_paths4(ctx, tr):
+    # a handler was cancelled (time-out) while its in-handler await was processing, inline, an event that is neither its own event
+    # nor a descendant of it (finding F0: the drain takes whatever is at the queue head): that unrelated event's running handler is
+    # cancelled with it and its remaining handlers never start
+    for h, x in tr.X.items():
+        if x.outcome != 'cancelled':
+            continue
+        own = tr.Eh[h].ev
+        fam = [own] + tr.desc(own)
+        for h2, x2 in tr.X.items():
+            if h2 == h or x2.outcome != 'cancelled' or not (tr.Eh[h].seq < tr.Eh[h2].seq and x2.seq <= x.seq):
+                continue
+            if tr.Eh[h2].ev not in fam and any(ab.by == h and ab.seq < tr.Eh[h2].seq for ab in tr.AB):
+                ctx.tag('unrelated_event_inline_under_timeout')
+
+
 def evaluate(ctx, finished):
     tr = Trace(ctx.records)
     tag_paths(ctx, tr)
     tag_paths2(ctx, tr)
     tag_paths3(ctx, tr)
+    tag_paths4(ctx, tr)
     fs = final_snaps(ctx)
     eval_c01(ctx, tr, finished)
     eval_c02(ctx, tr)
